@@ -1,0 +1,42 @@
+//! Verification hooks (feature `verif-hooks`, off by default): numbered crash
+//! points around every write to the database. When `VERIF_CRASH_AT=<n>` is
+//! set the process aborts at the n-th point; when `VERIF_CRASH_LOG=<file>` is
+//! set every point reached is appended to that file.
+use std::io::Write;
+use std::sync::OnceLock;
+use std::sync::atomic::{AtomicU64, Ordering};
+
+static COUNTER: AtomicU64 = AtomicU64::new(0);
+static CRASH_AT: OnceLock<Option<u64>> = OnceLock::new();
+static LOG: OnceLock<Option<String>> = OnceLock::new();
+
+/// A numbered crash point.
+pub fn point(label: &'static str) {
+    let n = COUNTER.fetch_add(1, Ordering::SeqCst) + 1;
+    let log = LOG.get_or_init(|| std::env::var("VERIF_CRASH_LOG").ok());
+    if let Some(path) = log
+        && let Ok(mut f) = std::fs::OpenOptions::new()
+            .create(true)
+            .append(true)
+            .open(path)
+    {
+        let _ = writeln!(f, "{n} {label}");
+    }
+    let at = CRASH_AT.get_or_init(|| {
+        std::env::var("VERIF_CRASH_AT")
+            .ok()
+            .and_then(|s| s.parse().ok())
+    });
+    if *at == Some(n) {
+        std::process::abort();
+    }
+}
+
+/// Reaches its crash point when dropped, i.e. after the guarded write returned.
+pub struct After(pub &'static str);
+
+impl Drop for After {
+    fn drop(&mut self) {
+        point(self.0);
+    }
+}
